@@ -7,16 +7,16 @@ CHECK = {
     ],
     "units": [
         unit("storagex-mem", "storagex", _C13_COMMON, "^TestVerif_C13_Mem$",
-             quick={"checks": 1200, "shards": 1, "cap": 600},
+             quick={"checks": 2500, "shards": 1, "cap": 600},
              thorough={"checks": 6000, "shards": 16, "cap": 2400}, no_ulimit=True),
         unit("storagex-file", "storagex", _C13_COMMON, "^TestVerif_C13_File$",
-             quick={"checks": 600, "shards": 1, "cap": 600},
-             thorough={"checks": 3000, "shards": 16, "cap": 2400}, no_ulimit=True),
+             quick={"checks": 400, "shards": 1, "cap": 600},
+             thorough={"checks": 2000, "shards": 16, "cap": 2400}, no_ulimit=True),
         unit("storagex-fsm", "storagex", _C13_COMMON, "^TestVerif_C13_FSM$",
-             quick={"checks": 300, "shards": 1, "cap": 600},
-             thorough={"checks": 1500, "shards": 16, "cap": 2400}, no_ulimit=True),
+             quick={"checks": 250, "shards": 1, "cap": 600, "shrinktime": "15s"},
+             thorough={"checks": 1200, "shards": 16, "cap": 2400, "shrinktime": "15s"}, no_ulimit=True),
         unit("raft-listing", "raft", ["raft/c13_raft_test.go"], "^TestVerif_C13_RaftListing$",
-             quick={"checks": 300, "shards": 1, "cap": 600},
-             thorough={"checks": 1500, "shards": 16, "cap": 2400}, no_ulimit=True),
+             quick={"checks": 600, "shards": 1, "cap": 600, "shrinktime": "15s"},
+             thorough={"checks": 2500, "shards": 16, "cap": 2400, "shrinktime": "15s"}, no_ulimit=True),
     ],
 }
